@@ -6,18 +6,22 @@ C06 at the aggregator: `MithrilEpochService` (mithril-aggregator/src/services/ep
 * the store: rows keyed by (epoch, party); `save_verification_key` = insert-or-replace (the replaced row goes to
   the front: `get_signers` reads `order by ROWID desc`); `prune_verification_keys e` deletes the rows of epochs `< e`;
 * `inform_epoch e` (fails for `e = 0`: `offset_to_signer_retrieval_epoch`) takes the snapshot: current signers =
-  the rows of epoch `e - 1`, next signers = the rows of epoch `e`, the two `Signer` lists and the two stake totals
-  (`.sum()` of u64: with overflow checks a total ≥ 2^64 panics before anything is assigned), and DROPS the
-  computed data;
-* `update_next_signers_with_stake` re-reads the rows of the snapshot's epoch into `next_signers_with_stake` ONLY
-  (the `next_signers` list and `total_next_stakes_signers` keep the values `inform_epoch` took) and calls
-  `precompute_epoch_data`;
+  the rows of epoch `e - 1`, next signers = the rows of epoch `e`, the two `Signer` lists and the two stake totals,
+  and DROPS the computed data;
+* `update_next_signers_with_stake` (code after the repairs df18c4ce4 and 9c9bc53d6) re-reads the rows of the
+  snapshot's epoch, replaces `next_signers`, `total_next_stakes_signers` and `next_signers_with_stake` with what it
+  read, calls `precompute_epoch_data`, and on an error RESTORES the three previous values before returning it;
 * `precompute_epoch_data` builds the two multi-signers with `SignerBuilder::new` (`RegPaths.build`), current
-  first; on an error it returns with the state as it is — in particular `update_next_signers_with_stake` has
-  already replaced the next signers, so a failing update leaves the PREVIOUS computed keys next to the NEW list.
+  first; on an error it returns with the state as it is.
 
-`nextStale` is a ghost flag (no counterpart in the code): "the last `update_next_signers_with_stake` failed in
-`precompute_epoch_data` while computed data was present".
+Stake totals are `.sum()` of u64: with overflow checks (dev profile) a total ≥ 2^64 panics — in `inform_epoch` before
+anything is assigned, in `update_next_signers_with_stake` while the new values are being put in place. A panic ends
+the node: the model gives the outcome `panic` and does not describe the state after it (the harness ends the history
+there).
+
+`Cfg` selects the code BEFORE the two repairs, for the counter-example theorems only:
+`refreshSnapshot = false`: the update re-reads `next_signers_with_stake` ONLY (before df18c4ce4);
+`restoreOnFailure = false`: a failing update leaves the new list next to the previous computed keys (before 9c9bc53d6).
 -/
 namespace RegService
 open RegClose RegModel RegPaths
@@ -35,9 +39,9 @@ structure Data where
   epoch : Nat
   cur : List Signer            -- `current_signers_with_stake`
   next : List Signer           -- `next_signers_with_stake`
-  nextSnap : List Nat          -- parties of `next_signers` (written by `inform_epoch` only)
+  nextSnap : List Nat          -- parties of `next_signers`
   totalCur : Nat               -- `total_stakes_signers`
-  totalNext : Nat              -- `total_next_stakes_signers` (written by `inform_epoch` only)
+  totalNext : Nat              -- `total_next_stakes_signers`
 deriving DecidableEq, Repr
 
 structure Computed where
@@ -49,8 +53,17 @@ structure St where
   store : List Row := []
   data : Option Data := none
   computed : Option Computed := none
-  nextStale : Bool := false
 deriving Repr
+
+/-- which of the two repairs are in the code -/
+structure Cfg where
+  refreshSnapshot : Bool       -- `fix:` df18c4ce4
+  restoreOnFailure : Bool      -- `fix:` 9c9bc53d6
+
+/-- the code as it is -/
+def prod : Cfg := { refreshSnapshot := true, restoreOnFailure := true }
+/-- the code before both repairs -/
+def beforeRepair : Cfg := { refreshSnapshot := false, restoreOnFailure := false }
 
 inductive Op where
   | save (r : Row)
@@ -63,7 +76,7 @@ deriving DecidableEq, Repr
 inductive Res where
   | ok
   | badEpoch                    -- `inform_epoch 0`
-  | panic                       -- stake total overflow in `inform_epoch` (overflow checks on)
+  | panic                       -- stake total overflow (overflow checks on)
   | notInit                     -- `inform_epoch` has not been called
   | buildCur (e : BuildErr)
   | buildNext (e : BuildErr)
@@ -85,17 +98,24 @@ def precompute (s : St) : St × Res :=
     | .ok c =>
       match build d.next with
       | .error e => (s, .buildNext e)
-      | .ok n => ({ s with computed := some ⟨c, n⟩, nextStale := false }, .ok)
+      | .ok n => ({ s with computed := some ⟨c, n⟩ }, .ok)
+
+/-- the next-signer fields after the update put the re-read rows in place -/
+def Data.refresh (c : Cfg) (d : Data) (new : List Signer) : Data :=
+  if c.refreshSnapshot then { d with next := new, nextSnap := new.map (·.party), totalNext := totalOf new }
+  else { d with next := new }
 
 /-- the state `update_next_signers_with_stake` hands to `precompute_epoch_data` -/
-def refreshed (s : St) (d : Data) : St := { s with data := some { d with next := signersAt s.store d.epoch } }
+def refreshed (c : Cfg) (s : St) (d : Data) : St := { s with data := some (d.refresh c (signersAt s.store d.epoch)) }
 
-def updateNext (s : St) : St × Res :=
+def updateNext (c : Cfg) (s : St) : St × Res :=
   match s.data with
   | none => (s, .notInit)
   | some d =>
-    let p := precompute (refreshed s d)
-    if p.2 = .ok then p else ({ p.1 with nextStale := p.1.computed.isSome }, p.2)
+    if c.refreshSnapshot = true ∧ totalOf (signersAt s.store d.epoch) ≥ 2 ^ 64 then (s, .panic)
+    else
+      let p := precompute (refreshed c s d)
+      if p.2 = .ok then p else (if c.restoreOnFailure then s else p.1, p.2)
 
 /-- the state a successful `inform_epoch e` leaves: the snapshot of the rows of the epochs `e - 1` and `e`, no computed data -/
 def informed (s : St) (e : Nat) : St :=
@@ -103,23 +123,23 @@ def informed (s : St) (e : Nat) : St :=
   let next := signersAt s.store e
   { s with data := some { epoch := e, cur, next, nextSnap := next.map (·.party),
                           totalCur := totalOf cur, totalNext := totalOf next },
-           computed := none, nextStale := false }
+           computed := none }
 
-def step (s : St) : Op → St × Res
+def step (c : Cfg) (s : St) : Op → St × Res
   | .save r => ({ s with store := r :: s.store.filter (fun x => !sameKey r x) }, .ok)
   | .prune e => ({ s with store := s.store.filter (fun x => decide (e ≤ x.epoch)) }, .ok)
   | .inform e =>
     if e = 0 then (s, .badEpoch)
     else if totalOf (signersAt s.store (e - 1)) ≥ 2 ^ 64 ∨ totalOf (signersAt s.store e) ≥ 2 ^ 64 then (s, .panic)
     else (informed s e, .ok)
-  | .updateNext => updateNext s
+  | .updateNext => updateNext c s
   | .precompute => precompute s
 
-def run : St → List Op → St × List Res
+def run (c : Cfg) : St → List Op → St × List Res
   | s, [] => (s, [])
   | s, op :: r =>
-    let (s1, o) := step s op
-    let (s2, os) := run s1 r
+    let (s1, o) := step c s op
+    let (s2, os) := run c s1 r
     (s2, o :: os)
 
 /-! ### cache coherence -/
@@ -130,15 +150,12 @@ def CurCoh (s : St) : Prop := ∀ c, s.computed = some c → ∃ d, s.data = som
 def NextCoh (s : St) : Prop := ∀ c, s.computed = some c → ∃ d, s.data = some d ∧ build d.next = .ok c.next
 /-- **cache coherence**: whenever computed data is present, both keys are the keys of the signer lists the service reports -/
 def Coh (s : St) : Prop := CurCoh s ∧ NextCoh s
-
-/-- what holds in EVERY reachable state -/
-structure Inv (s : St) : Prop where
-  cur : CurCoh s
-  next : s.nextStale = false → NextCoh s
+/-- `next_signers()` and `total_next_stakes_signers()` are those of `next_signers_with_stake()` -/
+def SnapCoh (s : St) : Prop := ∀ d, s.data = some d → d.nextSnap = d.next.map (·.party) ∧ d.totalNext = totalOf d.next
 
 /-- `precompute_epoch_data` either succeeds and leaves a coherent cache, or fails and changes nothing -/
 theorem precompute_spec (s : St) :
-    ((precompute s).2 = .ok ∧ Coh (precompute s).1 ∧ (precompute s).1.nextStale = false ∧
+    ((precompute s).2 = .ok ∧ Coh (precompute s).1 ∧
         (precompute s).1.data = s.data ∧ (precompute s).1.store = s.store) ∨
     ((precompute s).2 ≠ .ok ∧ (precompute s).2 ≠ .notInit ∧ s.data.isSome ∧ (precompute s).1 = s) ∨
     ((precompute s).2 = .notInit ∧ s.data = none ∧ (precompute s).1 = s) := by
@@ -152,10 +169,10 @@ theorem precompute_spec (s : St) :
       | error e => right; left; simp [precompute, hd, hc, hn]
       | ok n =>
         left
-        have hp : precompute s = ({ s with computed := some ⟨c, n⟩, nextStale := false }, .ok) := by
+        have hp : precompute s = ({ s with computed := some ⟨c, n⟩ }, .ok) := by
           simp [precompute, hd, hc, hn]
         rw [hp]
-        refine ⟨rfl, ⟨?_, ?_⟩, rfl, hd, rfl⟩
+        refine ⟨rfl, ⟨?_, ?_⟩, hd, rfl⟩
         · intro c' hc'
           simp only [Option.some.injEq] at hc'
           subst hc'
@@ -165,43 +182,54 @@ theorem precompute_spec (s : St) :
           subst hc'
           exact ⟨d, hd, hn⟩
 
-/-- `update_next_signers_with_stake` with a snapshot present: either the rebuilt cache, or — when a multi-signer
-cannot be built — the refreshed list next to whatever was cached before -/
+/-- `update_next_signers_with_stake` of the code as it is, with a snapshot present: either the cache rebuilt over the
+refreshed snapshot, or — panic, or no multi-signer can be built — nothing changed at all -/
 theorem updateNext_spec (s : St) (d : Data) (hd : s.data = some d) :
-    ((updateNext s).2 = .ok ∧ (updateNext s).1 = (precompute (refreshed s d)).1 ∧ (precompute (refreshed s d)).2 = .ok) ∨
-    ((updateNext s).2 ≠ .ok ∧ (updateNext s).2 ≠ .notInit ∧
-      (updateNext s).1 = { refreshed s d with nextStale := s.computed.isSome }) := by
-  have hu : updateNext s = (let p := precompute (refreshed s d)
-      if p.2 = .ok then p else ({ p.1 with nextStale := p.1.computed.isSome }, p.2)) := by
-    simp [updateNext, hd]
-  rcases precompute_spec (refreshed s d) with ⟨hok, _⟩ | ⟨hne, hni, _, heq⟩ | ⟨_, hnone, _⟩
-  · left
-    rw [hu]; simp [hok]
-  · right
-    rw [hu]
-    simp only [hne, if_false]
-    refine ⟨hne, hni, ?_⟩
-    rw [heq]; rfl
-  · simp [refreshed] at hnone
+    ((updateNext prod s).2 = .ok ∧ (updateNext prod s).1 = (precompute (refreshed prod s d)).1 ∧
+      (precompute (refreshed prod s d)).2 = .ok) ∨
+    ((updateNext prod s).2 ≠ .ok ∧ (updateNext prod s).1 = s) := by
+  have h1 : prod.refreshSnapshot = true := rfl
+  have h2 : prod.restoreOnFailure = true := rfl
+  by_cases hov : totalOf (signersAt s.store d.epoch) ≥ 2 ^ 64
+  · right; simp [updateNext, hd, h1, hov]
+  · by_cases hok : (precompute (refreshed prod s d)).2 = .ok
+    · left; simp [updateNext, hd, h1, hov, hok]
+    · right; simp [updateNext, hd, h1, h2, hov, hok]
 
-theorem inv_init : Inv ({} : St) := ⟨fun _ h => by simp at h, fun _ _ h => by simp at h⟩
+theorem refreshed_snap (s : St) (d : Data) : SnapCoh (refreshed prod s d) := by
+  intro d' hd'
+  simp only [refreshed, Data.refresh, prod, if_true, Option.some.injEq] at hd'
+  subst hd'
+  exact ⟨rfl, rfl⟩
+
+/-- what holds in EVERY reachable state of the code as it is -/
+structure Inv (s : St) : Prop where
+  coh : Coh s
+  snap : SnapCoh s
+
+theorem inv_init : Inv ({} : St) :=
+  ⟨⟨fun _ h => by simp at h, fun _ h => by simp at h⟩, fun _ h => by simp at h⟩
 
 /-- every operation, from every state, keeps the invariant -/
-theorem step_inv (s : St) (op : Op) (h : Inv s) : Inv (step s op).1 := by
+theorem step_inv (s : St) (op : Op) (h : Inv s) : Inv (step prod s op).1 := by
   cases op with
-  | save r => exact ⟨h.cur, h.next⟩
-  | prune e => exact ⟨h.cur, h.next⟩
+  | save r => exact ⟨h.coh, h.snap⟩
+  | prune e => exact ⟨h.coh, h.snap⟩
   | inform e =>
     simp only [step]
     split
     · exact h
     · split
       · exact h
-      · exact ⟨fun _ hc => by simp [informed] at hc, fun _ _ hc => by simp [informed] at hc⟩
+      · refine ⟨⟨fun _ hc => by simp [informed] at hc, fun _ hc => by simp [informed] at hc⟩, ?_⟩
+        intro d hd
+        simp only [informed, Option.some.injEq] at hd
+        subst hd
+        exact ⟨rfl, rfl⟩
   | precompute =>
     simp only [step]
-    rcases precompute_spec s with ⟨_, hcoh, _, _, _⟩ | ⟨_, _, _, heq⟩ | ⟨_, _, heq⟩
-    · exact ⟨hcoh.1, fun _ => hcoh.2⟩
+    rcases precompute_spec s with ⟨_, hcoh, hdat, _⟩ | ⟨_, _, _, heq⟩ | ⟨_, _, heq⟩
+    · exact ⟨hcoh, fun d hd => h.snap d (hdat ▸ hd)⟩
     · rw [heq]; exact h
     · rw [heq]; exact h
   | updateNext =>
@@ -209,125 +237,34 @@ theorem step_inv (s : St) (op : Op) (h : Inv s) : Inv (step s op).1 := by
     cases hd : s.data with
     | none => simp only [updateNext, hd]; exact h
     | some d =>
-      rcases updateNext_spec s d hd with ⟨_, heq, hok⟩ | ⟨_, _, heq⟩
+      rcases updateNext_spec s d hd with ⟨_, heq, hok⟩ | ⟨_, heq⟩
       · rw [heq]
-        rcases precompute_spec (refreshed s d) with ⟨_, hcoh, _, _, _⟩ | ⟨hne, _⟩ | ⟨hni, _⟩
-        · exact ⟨hcoh.1, fun _ => hcoh.2⟩
+        rcases precompute_spec (refreshed prod s d) with ⟨_, hcoh, hdat, _⟩ | ⟨hne, _⟩ | ⟨hni, _⟩
+        · exact ⟨hcoh, fun d' hd' => refreshed_snap s d d' (hdat ▸ hd')⟩
         · exact absurd hok hne
         · rw [hok] at hni; cases hni
-      · rw [heq]
-        constructor
-        · intro c hc
-          obtain ⟨d0, hd0, hb⟩ := h.cur c hc
-          rw [hd] at hd0
-          simp only [Option.some.injEq] at hd0
-          subst hd0
-          exact ⟨_, rfl, hb⟩
-        · intro hfl c hc
-          have hc' : s.computed = some c := hc
-          simp [hc'] at hfl
+      · rw [heq]; exact h
 
 /-- **Invariant of every reachable state**, for every history of store writes, prunes, `inform_epoch`,
 `update_next_signers_with_stake` and `precompute_epoch_data` calls, whatever their arguments and results -/
-theorem run_inv : ∀ (ops : List Op) (s : St), Inv s → Inv (run s ops).1 := by
+theorem run_inv : ∀ (ops : List Op) (s : St), Inv s → Inv (run prod s ops).1 := by
   intro ops
   induction ops with
   | nil => intro s h; exact h
   | cons op r ih => intro s h; simp only [run]; exact ih _ (step_inv s op h)
 
-/-- the ghost flag is raised by a failing `update_next_signers_with_stake` only -/
-theorem step_flag (s : St) (op : Op) (h : (step s op).1.nextStale = true) :
-    s.nextStale = true ∨ (op = .updateNext ∧ (step s op).2 ≠ .ok ∧ (step s op).2 ≠ .notInit) := by
-  cases op with
-  | save r => exact Or.inl h
-  | prune e => exact Or.inl h
-  | inform e =>
-    simp only [step] at h
-    split at h
-    · exact Or.inl h
-    · split at h
-      · exact Or.inl h
-      · simp [informed] at h
-  | precompute =>
-    simp only [step] at h
-    rcases precompute_spec s with ⟨_, _, hst, _, _⟩ | ⟨_, _, _, heq⟩ | ⟨_, _, heq⟩
-    · rw [hst] at h; simp at h
-    · rw [heq] at h; exact Or.inl h
-    · rw [heq] at h; exact Or.inl h
-  | updateNext =>
-    simp only [step] at h
-    cases hd : s.data with
-    | none => simp only [updateNext, hd] at h; exact Or.inl h
-    | some d =>
-      rcases updateNext_spec s d hd with ⟨_, heq, hok⟩ | ⟨hne, hni, _⟩
-      · rw [heq] at h
-        rcases precompute_spec (refreshed s d) with ⟨_, _, hst, _, _⟩ | ⟨hne, _⟩ | ⟨hni, _⟩
-        · rw [hst] at h; simp at h
-        · exact absurd hok hne
-        · rw [hok] at hni; cases hni
-      · exact Or.inr ⟨rfl, hne, hni⟩
+/-- full coherence after every operation sequence, as a statement about a version of the code -/
+def coherent_goal (c : Cfg) : Prop := ∀ ops : List Op, Coh (run c {} ops).1
+/-- `next_signers()` / `total_next_stakes_signers()` follow `next_signers_with_stake()` after every operation sequence -/
+def snapshot_goal (c : Cfg) : Prop := ∀ ops : List Op, SnapCoh (run c {} ops).1
 
-/-- `true` iff some `update_next_signers_with_stake` of the history failed while building a multi-signer -/
-def failedUpdate : List Op → List Res → Bool
-  | .updateNext :: ops, r :: rs => (r != .ok && r != .notInit) || failedUpdate ops rs
-  | _ :: ops, _ :: rs => failedUpdate ops rs
-  | _, _ => false
+/-- **Cache coherence for EVERY operation sequence**: whenever computed data is present, the current key is the key of
+`current_signers_with_stake()` and the next key is the key of `next_signers_with_stake()` -/
+theorem run_coherent : coherent_goal prod := fun ops => (run_inv ops {} inv_init).coh
 
-theorem run_flag : ∀ (ops : List Op) (s : St), (run s ops).1.nextStale = true →
-    s.nextStale = true ∨ failedUpdate ops (run s ops).2 = true := by
-  intro ops
-  induction ops with
-  | nil => intro s h; exact Or.inl h
-  | cons op r ih =>
-    intro s h
-    simp only [run] at h ⊢
-    rcases ih _ h with h1 | h2
-    · rcases step_flag s op h1 with h0 | ⟨rfl, hne, hni⟩
-      · exact Or.inl h0
-      · right
-        simp [failedUpdate, hne, hni]
-    · right
-      cases op <;> simp [failedUpdate, h2]
-
-/-- **Cache coherence for every history without a failed update**: whenever computed data is present, the current
-key is the key of `current_signers_with_stake()` and the next key is the key of `next_signers_with_stake()` -/
-theorem run_coherent (ops : List Op) (hno : failedUpdate ops (run {} ops).2 = false) : Coh (run {} ops).1 := by
-  have hinv := run_inv ops {} inv_init
-  refine ⟨hinv.cur, hinv.next ?_⟩
-  cases hfl : (run {} ops).1.nextStale with
-  | false => rfl
-  | true =>
-    rcases run_flag ops {} hfl with h | h
-    · simp at h
-    · rw [hno] at h; simp at h
-
-/-- … and after EVERY successful service call the cache is coherent, whatever happened before -/
-theorem step_ok_coherent (s : St) (op : Op) (hop : op = .inform e ∨ op = .updateNext ∨ op = .precompute)
-    (hok : (step s op).2 = .ok) : Coh (step s op).1 := by
-  rcases hop with rfl | rfl | rfl
-  · simp only [step] at hok ⊢
-    by_cases h0 : e = 0
-    · simp [h0] at hok
-    · by_cases h1 : totalOf (signersAt s.store (e - 1)) ≥ 2 ^ 64 ∨ totalOf (signersAt s.store e) ≥ 2 ^ 64
-      · simp [h0, h1] at hok
-      · simp only [h0, h1, if_false]
-        exact ⟨fun _ hc => by simp [informed] at hc, fun _ hc => by simp [informed] at hc⟩
-  · simp only [step] at hok ⊢
-    cases hd : s.data with
-    | none => simp [updateNext, hd] at hok
-    | some d =>
-      rcases updateNext_spec s d hd with ⟨_, heq, hok'⟩ | ⟨hne, _, _⟩
-      · rw [heq]
-        rcases precompute_spec (refreshed s d) with ⟨_, hcoh, _, _, _⟩ | ⟨hne, _⟩ | ⟨hni, _⟩
-        · exact hcoh
-        · exact absurd hok' hne
-        · rw [hok'] at hni; cases hni
-      · exact absurd hok hne
-  · simp only [step] at hok ⊢
-    rcases precompute_spec s with ⟨_, hcoh, _, _, _⟩ | ⟨hne, _⟩ | ⟨hni, _⟩
-    · exact hcoh
-    · exact absurd hok hne
-    · rw [hok] at hni; cases hni
+/-- **The `Signer` list and the total of the next signers are those of `next_signers_with_stake()`**, after every
+operation sequence -/
+theorem run_snapshot : snapshot_goal prod := fun ops => (run_inv ops {} inv_init).snap
 
 /-! ### the store keeps one row per (epoch, party): the lists the service reads are honest lists -/
 
@@ -364,7 +301,7 @@ theorem signersAt_wf {store : List Row} (h : StoreInv store) (e : Nat) : WF (sig
       · exact ih h.2
 
 theorem step_store_eq (s : St) (op : Op) :
-    (step s op).1.store = s.store ∨ (∃ r, op = .save r) ∨ (∃ e, op = .prune e) := by
+    (step prod s op).1.store = s.store ∨ (∃ r, op = .save r) ∨ (∃ e, op = .prune e) := by
   cases op with
   | save r => exact Or.inr (Or.inl ⟨r, rfl⟩)
   | prune e => exact Or.inr (Or.inr ⟨e, rfl⟩)
@@ -377,7 +314,7 @@ theorem step_store_eq (s : St) (op : Op) :
   | precompute =>
     left
     simp only [step]
-    rcases precompute_spec s with ⟨_, _, _, _, hs⟩ | ⟨_, _, _, heq⟩ | ⟨_, _, heq⟩
+    rcases precompute_spec s with ⟨_, _, _, hs⟩ | ⟨_, _, _, heq⟩ | ⟨_, _, heq⟩
     · exact hs
     · rw [heq]
     · rw [heq]
@@ -387,15 +324,15 @@ theorem step_store_eq (s : St) (op : Op) :
     cases hd : s.data with
     | none => simp only [updateNext, hd]
     | some d =>
-      rcases updateNext_spec s d hd with ⟨_, heq, _⟩ | ⟨_, _, heq⟩
+      rcases updateNext_spec s d hd with ⟨_, heq, _⟩ | ⟨_, heq⟩
       · rw [heq]
-        rcases precompute_spec (refreshed s d) with ⟨_, _, _, _, hs⟩ | ⟨_, _, _, heq'⟩ | ⟨_, _, heq'⟩
+        rcases precompute_spec (refreshed prod s d) with ⟨_, _, _, hs⟩ | ⟨_, _, _, heq'⟩ | ⟨_, _, heq'⟩
         · rw [hs]; rfl
         · rw [heq']; rfl
         · rw [heq']; rfl
-      · rw [heq]; rfl
+      · rw [heq]
 
-theorem step_store (s : St) (op : Op) (h : StoreInv s.store) : StoreInv (step s op).1.store := by
+theorem step_store (s : St) (op : Op) (h : StoreInv s.store) : StoreInv (step prod s op).1.store := by
   have hfilter : ∀ (p : Row → Bool), StoreInv (s.store.filter p) := fun p =>
     List.Nodup.sublist (List.Sublist.map _ List.filter_sublist) h
   rcases step_store_eq s op with heq | ⟨r, rfl⟩ | ⟨e, rfl⟩
@@ -414,7 +351,7 @@ structure DataWF (s : St) : Prop where
   store : StoreInv s.store
   lists : ∀ d, s.data = some d → WF d.cur ∧ WF d.next
 
-theorem step_dataWF (s : St) (op : Op) (h : DataWF s) : DataWF (step s op).1 := by
+theorem step_dataWF (s : St) (op : Op) (h : DataWF s) : DataWF (step prod s op).1 := by
   refine ⟨step_store s op h.store, ?_⟩
   cases op with
   | save r => exact h.lists
@@ -431,7 +368,7 @@ theorem step_dataWF (s : St) (op : Op) (h : DataWF s) : DataWF (step s op).1 := 
         exact ⟨signersAt_wf h.store _, signersAt_wf h.store _⟩
   | precompute =>
     simp only [step]
-    rcases precompute_spec s with ⟨_, _, _, hdat, _⟩ | ⟨_, _, _, heq⟩ | ⟨_, _, heq⟩
+    rcases precompute_spec s with ⟨_, _, hdat, _⟩ | ⟨_, _, _, heq⟩ | ⟨_, _, heq⟩
     · rw [hdat]; exact h.lists
     · rw [heq]; exact h.lists
     · rw [heq]; exact h.lists
@@ -440,20 +377,20 @@ theorem step_dataWF (s : St) (op : Op) (h : DataWF s) : DataWF (step s op).1 := 
     cases hd : s.data with
     | none => simp only [updateNext, hd]; intro d hd'; simp at hd'
     | some d =>
-      have hwf : ∀ d', (refreshed s d).data = some d' → WF d'.cur ∧ WF d'.next := by
+      have hwf : ∀ d', (refreshed prod s d).data = some d' → WF d'.cur ∧ WF d'.next := by
         intro d' hd'
-        simp only [refreshed, Option.some.injEq] at hd'
+        simp only [refreshed, Data.refresh, prod, if_true, Option.some.injEq] at hd'
         subst hd'
         exact ⟨(h.lists d hd).1, signersAt_wf h.store _⟩
-      rcases updateNext_spec s d hd with ⟨_, heq, _⟩ | ⟨_, _, heq⟩
+      rcases updateNext_spec s d hd with ⟨_, heq, _⟩ | ⟨_, heq⟩
       · rw [heq]
-        rcases precompute_spec (refreshed s d) with ⟨_, _, _, hdat, _⟩ | ⟨_, _, _, heq'⟩ | ⟨_, _, heq'⟩
+        rcases precompute_spec (refreshed prod s d) with ⟨_, _, hdat, _⟩ | ⟨_, _, _, heq'⟩ | ⟨_, _, heq'⟩
         · rw [hdat]; exact hwf
         · rw [heq']; exact hwf
         · rw [heq']; exact hwf
-      · rw [heq]; exact hwf
+      · rw [heq]; exact h.lists
 
-theorem run_dataWF : ∀ (ops : List Op) (s : St), DataWF s → DataWF (run s ops).1 := by
+theorem run_dataWF : ∀ (ops : List Op) (s : St), DataWF s → DataWF (run prod s ops).1 := by
   intro ops
   induction ops with
   | nil => intro s h; exact h
@@ -462,17 +399,14 @@ theorem run_dataWF : ∀ (ops : List Op) (s : St), DataWF s → DataWF (run s op
 theorem dataWF_init : DataWF ({} : St) := ⟨by simp [StoreInv], fun _ h => by simp at h⟩
 
 /-- **The aggregator's keys are a function of the registration SET, not of the history**: two services reached by
-ANY two histories without a failed update, whose reported next (current) signer lists are permutations of each
-other, hold the same next (current) multi-signer: same closed registration (every slot), same total stake, same
-aggregate key -/
-theorem keys_function_of_set (ops₁ ops₂ : List Op)
-    (h₁ : failedUpdate ops₁ (run {} ops₁).2 = false) (h₂ : failedUpdate ops₂ (run {} ops₂).2 = false)
-    {d₁ d₂ : Data} {c₁ c₂ : Computed}
-    (hd₁ : (run {} ops₁).1.data = some d₁) (hd₂ : (run {} ops₂).1.data = some d₂)
-    (hc₁ : (run {} ops₁).1.computed = some c₁) (hc₂ : (run {} ops₂).1.computed = some c₂) :
+ANY two histories, whose reported next (current) signer lists are permutations of each other, hold the same next
+(current) multi-signer: same closed registration (every slot), same total stake, same aggregate key -/
+theorem keys_function_of_set (ops₁ ops₂ : List Op) {d₁ d₂ : Data} {c₁ c₂ : Computed}
+    (hd₁ : (run prod {} ops₁).1.data = some d₁) (hd₂ : (run prod {} ops₂).1.data = some d₂)
+    (hc₁ : (run prod {} ops₁).1.computed = some c₁) (hc₂ : (run prod {} ops₂).1.computed = some c₂) :
     (d₁.next.Perm d₂.next → c₁.next = c₂.next) ∧ (d₁.cur.Perm d₂.cur → c₁.cur = c₂.cur) := by
-  have coh₁ := run_coherent ops₁ h₁
-  have coh₂ := run_coherent ops₂ h₂
+  have coh₁ := run_coherent ops₁
+  have coh₂ := run_coherent ops₂
   have wf₁ := (run_dataWF ops₁ {} dataWF_init).lists d₁ hd₁
   constructor
   · intro hp
@@ -494,8 +428,8 @@ theorem keys_function_of_set (ops₁ ops₂ : List Op)
 
 /-- **The keys after `inform_epoch e` + `precompute_epoch_data` are those of the store's rows of the epochs `e - 1` and
 `e`** (the real offsets), whatever state the service was in before — what a fresh service reports -/
-theorem informed_keys (s : St) (e : Nat) (c : Computed) (h1 : (step s (.inform e)).2 = .ok)
-    (h2 : (step (step s (.inform e)).1 .precompute).1.computed = some c) :
+theorem informed_keys (s : St) (e : Nat) (c : Computed) (h1 : (step prod s (.inform e)).2 = .ok)
+    (h2 : (step prod (step prod s (.inform e)).1 .precompute).1.computed = some c) :
     build (signersAt s.store (e - 1)) = .ok c.cur ∧ build (signersAt s.store e) = .ok c.next := by
   simp only [step] at h1 h2
   by_cases h0 : e = 0
@@ -504,7 +438,7 @@ theorem informed_keys (s : St) (e : Nat) (c : Computed) (h1 : (step s (.inform e
     · simp [h0, hov] at h1
     · simp only [h0, hov, if_false] at h2
       have hc1 : (informed s e).computed = none := rfl
-      rcases precompute_spec (informed s e) with ⟨_, hcoh, _, hdat, _⟩ | ⟨_, _, _, heq⟩ | ⟨_, _, heq⟩
+      rcases precompute_spec (informed s e) with ⟨_, hcoh, hdat, _⟩ | ⟨_, _, _, heq⟩ | ⟨_, _, heq⟩
       · obtain ⟨d, hd, hb⟩ := hcoh.1 c h2
         obtain ⟨d', hd', hb'⟩ := hcoh.2 c h2
         rw [hdat] at hd hd'
@@ -514,12 +448,12 @@ theorem informed_keys (s : St) (e : Nat) (c : Computed) (h1 : (step s (.inform e
       · rw [heq, hc1] at h2; cases h2
       · rw [heq, hc1] at h2; cases h2
 
-/-- **Live = fresh**: a coherent live service whose snapshot holds the store's present rows reports exactly what a
+/-- **Live = fresh**: a live service (any history) whose snapshot holds the store's present rows reports exactly what a
 fresh service, informed of the same epoch over the same store, computes -/
 theorem live_agrees_with_fresh (s : St) (hcoh : Coh s) (d : Data) (c cf : Computed) (hd : s.data = some d)
     (hc : s.computed = some c) (hcur : d.cur = signersAt s.store (d.epoch - 1)) (hnext : d.next = signersAt s.store d.epoch)
-    (h1 : (step { store := s.store } (.inform d.epoch)).2 = .ok)
-    (h2 : (step (step { store := s.store } (.inform d.epoch)).1 .precompute).1.computed = some cf) : c = cf := by
+    (h1 : (step prod { store := s.store } (.inform d.epoch)).2 = .ok)
+    (h2 : (step prod (step prod { store := s.store } (.inform d.epoch)).1 .precompute).1.computed = some cf) : c = cf := by
   obtain ⟨hf1, hf2⟩ := informed_keys { store := s.store } d.epoch cf h1 h2
   obtain ⟨d1, hd1, hb1⟩ := hcoh.1 c hc
   obtain ⟨d2, hd2, hb2⟩ := hcoh.2 c hc
@@ -533,59 +467,63 @@ theorem live_agrees_with_fresh (s : St) (hcoh : Coh s) (d : Data) (c cf : Comput
   have e2 : c.next = cf.next := Except.ok.inj hf2
   cases c; cases cf; simp_all
 
-/-! ### what the code does NOT keep (counter-examples on the model of the code as it is) -/
-
-/-- `update_next_signers_with_stake` never refreshes `next_signers` / `total_next_stakes_signers` -/
-theorem updateNext_keeps_snapshot (s : St) (d : Data) (hd : s.data = some d) :
-    ∃ d', (step s .updateNext).1.data = some d' ∧ d'.nextSnap = d.nextSnap ∧ d'.totalNext = d.totalNext ∧
-      d'.next = signersAt s.store d.epoch := by
-  simp only [step]
-  refine ⟨{ d with next := signersAt s.store d.epoch }, ?_, rfl, rfl, rfl⟩
-  rcases updateNext_spec s d hd with ⟨_, heq, _⟩ | ⟨_, _, heq⟩
-  · rw [heq]
-    rcases precompute_spec (refreshed s d) with ⟨_, _, _, hdat, _⟩ | ⟨_, _, _, heq'⟩ | ⟨_, _, heq'⟩
-    · rw [hdat]; rfl
-    · rw [heq']; rfl
-    · rw [heq']; rfl
-  · rw [heq]; rfl
+/-! ### the two defects the repairs removed (counter-examples on the model of the code before them) -/
 
 def rowA : Row := ⟨2, 1, 7, 5⟩
 def rowB : Row := ⟨2, 2, 8, 6⟩
 /-- party 2 registering party 1's key -/
 def rowDup : Row := ⟨2, 2, 7, 6⟩
 
-/-- full coherence as a goal: it does NOT hold for the code as it is (`failed_update_counterexample`) -/
-def coherent_goal : Prop := ∀ ops : List Op, Coh (run {} ops).1
+def histSnapshot : List Op := [.save ⟨1, 1, 7, 5⟩, .save rowA, .inform 2, .save rowB, .updateNext]
+def histFailedUpdate : List Op := [.save ⟨1, 1, 7, 5⟩, .save rowA, .inform 2, .precompute, .save rowDup, .updateNext]
 
-/-- a new registration arriving after `inform_epoch`: `next_signers_with_stake` follows it, the `next_signers`
-list and `total_next_stakes_signers` do not -/
-theorem stale_snapshot_counterexample :
-    ∃ d, (run {} [.save ⟨1, 1, 7, 5⟩, .save rowA, .inform 2, .save rowB, .updateNext]).1.data = some d ∧
-      d.next.map (·.party) = [2, 1] ∧ d.nextSnap = [1] ∧ totalOf d.next = 11 ∧ d.totalNext = 5 := by
-  simp only [run]
-  generalize hs : (step (step (step (step {} (.save ⟨1, 1, 7, 5⟩)).1 (.save rowA)).1 (.inform 2)).1 (.save rowB)).1 = s
-  have hstore : s.store = [rowB, rowA, ⟨1, 1, 7, 5⟩] := by rw [← hs]; decide
-  have hdata : s.data = some ⟨2, [⟨1, 1, 7, 5⟩], [⟨1, 1, 7, 5⟩], [1], 5, 5⟩ := by rw [← hs]; decide
-  obtain ⟨d', h1, h2, h3, h4⟩ := updateNext_keeps_snapshot s _ hdata
-  refine ⟨d', h1, ?_, h2, ?_, h3⟩
-  · rw [h4, hstore]; decide
-  · rw [h4, hstore]; decide
-
-/-- an update that fails (party 2 arrives with party 1's key: `SignerBuilder::new` rejects the repeated key) leaves
-the previous next key cached next to the new next signer list: `coherent_goal` is false -/
-theorem failed_update_counterexample : ¬ coherent_goal := by
+/-- before `fix:` df18c4ce4: a registration arriving after `inform_epoch`: `next_signers_with_stake` follows it, the
+`next_signers` list and `total_next_stakes_signers` do not -/
+theorem stale_snapshot_counterexample_before_repair : ¬ snapshot_goal beforeRepair := by
   intro h
-  have hcoh := (h [.save ⟨1, 1, 7, 5⟩, .save rowA, .inform 2, .precompute, .save rowDup, .updateNext]).2
-  have hrun : (run {} [.save ⟨1, 1, 7, 5⟩, .save rowA, .inform 2, .precompute, .save rowDup, .updateNext]).1.computed
-        = some ⟨⟨[⟨5, 7⟩], 5⟩, ⟨[⟨5, 7⟩], 5⟩⟩ ∧
-      (run {} [.save ⟨1, 1, 7, 5⟩, .save rowA, .inform 2, .precompute, .save rowDup, .updateNext]).1.data
+  have hs := h histSnapshot
+  have hrun : (run beforeRepair {} histSnapshot).1.data
+      = some ⟨2, [⟨1, 1, 7, 5⟩], [⟨2, 2, 8, 6⟩, ⟨1, 1, 7, 5⟩], [1], 5, 5⟩ := by
+    simp [histSnapshot, run, step, informed, updateNext, refreshed, Data.refresh, beforeRepair, precompute, build, regLoop,
+      stakeOf, closeReg, ofClose, signersAt, sameKey, totalOf, rowA, rowB, Row.signer]
+    repeat' split
+    all_goals rfl
+  have := (hs _ hrun).1
+  simp at this
+
+/-- before `fix:` 9c9bc53d6: an update that fails (party 2 arrives with party 1's key: `SignerBuilder::new` rejects the
+repeated key) leaves the previous next key cached next to the new next signer list -/
+theorem failed_update_counterexample_before_repair : ¬ coherent_goal beforeRepair := by
+  intro h
+  have hcoh := (h histFailedUpdate).2
+  have hrun : (run beforeRepair {} histFailedUpdate).1.computed = some ⟨⟨[⟨5, 7⟩], 5⟩, ⟨[⟨5, 7⟩], 5⟩⟩ ∧
+      (run beforeRepair {} histFailedUpdate).1.data
         = some ⟨2, [⟨1, 1, 7, 5⟩], [⟨2, 2, 7, 6⟩, ⟨1, 1, 7, 5⟩], [1], 5, 5⟩ := by
-    simp [run, step, informed, updateNext, refreshed, precompute, build, regLoop, stakeOf, closeReg, ofClose, close, signersAt,
-      sameKey, totalOf, rowA, rowDup, Row.signer]
+    simp [histFailedUpdate, run, step, informed, updateNext, refreshed, Data.refresh, beforeRepair, precompute, build,
+      regLoop, stakeOf, closeReg, ofClose, close, signersAt, sameKey, totalOf, rowA, rowDup, Row.signer]
   obtain ⟨d, hd, hb⟩ := hcoh _ hrun.1
   rw [hrun.2] at hd
   simp only [Option.some.injEq] at hd
   subst hd
   simp [build, regLoop, stakeOf] at hb
+
+/-- … both histories are harmless now: the refreshed list comes with its `Signer` list and total, the failing update
+leaves the service as it was -/
+theorem repaired_examples :
+    (∃ d, (run prod {} histSnapshot).1.data = some d ∧ d.nextSnap = [2, 1] ∧ d.totalNext = 11) ∧
+    (run prod {} histFailedUpdate).1.data = some ⟨2, [⟨1, 1, 7, 5⟩], [⟨1, 1, 7, 5⟩], [1], 5, 5⟩ := by
+  constructor
+  · have h1 := run_snapshot histSnapshot
+    have hnext : ∃ d, (run prod {} histSnapshot).1.data = some d ∧ d.next = [⟨2, 2, 8, 6⟩, ⟨1, 1, 7, 5⟩] := by
+      simp [histSnapshot, run, step, informed, updateNext, refreshed, Data.refresh, prod, precompute, build, regLoop,
+        stakeOf, closeReg, ofClose, signersAt, sameKey, totalOf, rowA, rowB, Row.signer]
+      repeat' split
+      all_goals simp_all
+    obtain ⟨d, hd, hn⟩ := hnext
+    refine ⟨d, hd, ?_, ?_⟩
+    · rw [(h1 d hd).1, hn]; rfl
+    · rw [(h1 d hd).2, hn]; rfl
+  · simp [histFailedUpdate, run, step, informed, updateNext, refreshed, Data.refresh, prod, precompute, build,
+      regLoop, stakeOf, closeReg, ofClose, close, signersAt, sameKey, totalOf, rowA, rowDup, Row.signer]
 
 end RegService
